@@ -34,6 +34,14 @@ CHECKS = {
    technique="exhaustive boundary grid over the suppression predicate (component facade) plus stateful property-based testing in the daemon simulation on the responder side (C06 scenario with boundary known answers) and on the querier side (browse queries of a daemon holding PTRs of all ages)",
    text="Exploration: the complete grid 5 record kinds x 12 responder TTLs x ~8 known TTLs around the half x 5 difference kinds (2350 points, enumerated), 2e4 responder histories with boundary known answers, and 1.2e4 querier histories in which every outgoing browse query's known-answer list is judged (only held shared records with at most half their life gone, remaining TTL +-1 s, query on every interface).",
    note="Trusted: simulation hooks, refdns, reference responder. Exactly half the TTL is left open on both sides; letter-case-only differences leave suppression open."),
+ "C13": dict(engine=E3, design="6/C13",
+   technique="stateful property-based testing in the deterministic daemon simulation: generated interleavings of browse / browse again / browse_cache / stop / resolve_hostname / stop / shutdown with scripted responders, observed ~2 h of virtual time after the last call; channel-protocol and wire oracles",
+   text="Exploration: 2e4 (quick) / 6e5 (thorough) generated interleavings. Per channel: first event SearchStarted, Found before Resolved, exactly one final SearchStopped after stop / timeout (SearchTimeout first) / shutdown; on the wire: no query for a type or host name outside the log-position intervals in which a search for it is open (compared case-insensitively), none for cache-only browses; a cache-only browse after stop_browse reports nothing that was not announced again.",
+   note="Trusted: simulation hooks and refdns. Replaced searches need not get SearchStopped themselves; two hostname searches for one name are never open at once."),
+ "C19": dict(engine=E3, design="6/C19",
+   technique="stateful property-based testing in the deterministic daemon simulation over virtual horizons of days: every query is attributed to the back-off schedule of an open search, a refresh mark of a cached record or a follow-up, and every scheduled time must carry its query",
+   text="Exploration: 2.4e4 (quick) / 4e5 (thorough) generated search histories (1-3 browses, 0-3 hostname searches, started / stopped / re-issued, responders with TTL 2..5000 s) observed for hours to 3 days of virtual time (~65 scheduled queries per case). Exact comparison of query times with start, +1, +3, +7 ... s, gaps doubling to 2048 s then 3600 s.",
+   note="Trusted: simulation hooks and refdns. Exact wake-ups, very large interface-check interval, no interface changes, no verify calls."),
 }
 
 def check_entry(pid, c):
